@@ -1,7 +1,8 @@
 (* C15 -- HTML escaping neutralises all markup; URL and base64url codecs are exact inverses.
    This file holds only the property theorems, each closed by `exact <lemma>`; the proofs are in
    Proofs.v (model) and Link.v (generated-from-source leaf functions = model leaf functions). *)
-From CppcmsV Require Import Base.Tac Base.CSem Base.Sweep C15.Defs C15.Proofs C15.Link gen.Gen_util gen.Gen_b64.
+From CppcmsV Require Import Base.Tac Base.CSem Base.Sweep C15.Defs C15.Proofs C15.ProofsUrl C15.ProofsB64 C15.ProofsFilter C15.ProofsSink C15.ProofsForm
+  C15.Link C15.LinkLoops gen.Gen_util gen.Gen_b64 gen.Gen_c15x.
 Local Open Scope N_scope.
 
 (* 1. escape: no < > dquote squote in the output; every ampersand opens one of the five entities;
@@ -78,3 +79,215 @@ Theorem tie_b64_decoded_size : forall n, n < 2 ^ 30 ->
   g_b64_decoded_size (Z.of_N n) = match decoded_size n with Some d => Z.of_N d | None => (-1)%Z end.
 Proof. exact link_decoded_size. Qed.
 Print Assumptions tie_b64_decoded_size.
+
+(* 5. tie of the LOOPS: the loop bodies regenerated from the current source, iterated by the loop skeletons of
+      LinkLoops.v, are the model functions for ALL byte strings (the hand model of these loops is no longer trusted;
+      what is trusted is the skeleton = how the body is iterated, and the textual pre-processor of checks/C15.py) *)
+Theorem tie_escape_string_loop : forall s, bytes_ok s -> g_loop g_escape_step s = escape s.
+Proof. exact link_escape_loop. Qed.
+Theorem tie_escape_streambuf_loop : forall s, bytes_ok s -> g_loop gx_escape_sb_step s = escape s.
+Proof. exact link_escape_sb_loop. Qed.
+Theorem tie_urlencode_loop : forall s, bytes_ok s -> g_loop g_urlencode_step s = urlencode s.
+Proof. exact link_urlencode_loop. Qed.
+Theorem tie_urldecode_loop : forall s, bytes_ok s -> g_urldecode s = urldecode s.
+Proof. exact link_urldecode_loop. Qed.
+Print Assumptions tie_urldecode_loop.
+Theorem tie_b64_encode_loop : forall s, bytes_ok s -> g_b64encode s = b64encode s.
+Proof. exact link_b64encode_loop. Qed.
+Theorem tie_b64_decode_loop : forall s, bytes_ok s -> g_b64decode s = b64decode s.
+Proof. exact link_b64decode_loop. Qed.
+Print Assumptions tie_b64_decode_loop.
+Theorem tie_b64_bencode_blocks : forall a b c, a < 256 -> b < 256 -> c < 256 ->
+  zs2ns (g_benc_block (Z.of_N a) (Z.of_N b) (Z.of_N c) 3) = benc3 a b c /\
+  (forall x, zs2ns (g_benc_block (Z.of_N a) (Z.of_N b) x 2) = benc2 a b) /\
+  (forall x y, zs2ns (g_benc_block (Z.of_N a) x y 1) = benc1 a).
+Proof. intros a b c Ha Hb Hc. split; [apply link_benc_block3; assumption|]. split; intros; [apply link_benc_block2|apply link_benc_block1]; assumption. Qed.
+Example tie_loops_nonvacuous :
+  g_urldecode [37;52;49;43;37;37;55;65] = [65;32;122] /\ g_b64encode [255;254;253;0] = [95;95;55;57;65;65] /\
+  g_b64decode [95;95;55;57;65;65] = [255;254;253;0] /\ g_loop gx_escape_sb_step [60;97] = [38;108;116;59;97].
+Proof. vm_compute. repeat split. Qed.
+
+(* 6. template filters: a value streamed in any pieces through the 128-byte filter buffer = the filter of the whole *)
+Theorem filterbuf_streaming_equals_whole : forall F : list N -> list N,
+  (forall a b, F (a ++ b) = F a ++ F b) -> forall pieces, fb_run F pieces = F (concat pieces).
+Proof. exact fb_run_additive. Qed.
+Print Assumptions filterbuf_streaming_equals_whole.
+Theorem filterbuf_put_area_bounded : forall F pieces, (length (snd (fold_left (fb_write F) pieces ([], []))) <= fb_cap)%nat.
+Proof. exact fb_buf_bounded. Qed.
+Theorem filter_escape_streaming : forall pieces, filter_escape pieces = escape (concat pieces).
+Proof. exact filter_escape_whole. Qed.
+Theorem filter_urlencode_streaming : forall pieces, filter_urlencode pieces = urlencode (concat pieces).
+Proof. exact filter_urlencode_whole. Qed.
+Theorem filter_base64_streaming : forall pieces, filter_base64 pieces = b64encode (concat pieces).
+Proof. exact filter_base64_whole. Qed.
+Theorem filter_escape_neutralises : forall pieces,
+  forallb markup_free (filter_escape pieces) = true /\ unescape (filter_escape pieces) = concat pieces.
+Proof. exact filter_escape_neutral. Qed.
+Print Assumptions filter_escape_neutralises.
+(* the block codec is not additive: this is why base64_urlencode must record the whole value first *)
+Theorem b64encode_is_not_additive : b64encode ([1] ++ [2]) <> b64encode [1] ++ b64encode [2].
+Proof. exact b64encode_not_additive. Qed.
+Example filter_nonvacuous :
+  filter_escape [[60]; repeat 97 130; [38; 62]] = escape ([60] ++ repeat 97 130 ++ [38; 62]) /\
+  fst (fold_left (fb_write escape) [[60]; repeat 97 130] ([], [])) <> [].
+Proof. split; [vm_compute; reflexivity|vm_compute; discriminate]. Qed.
+
+(* 7. urldecode on arbitrary (also malformed) input: exactly what the code does, and composition with urlencode *)
+Theorem urldecode_exact_behaviour :
+  urldecode [] = [] /\
+  (forall r, urldecode (43 :: r) = 32 :: urldecode r) /\
+  (forall h1 h2 r, xdigit h1 && xdigit h2 = true ->
+                   urldecode (37 :: h1 :: h2 :: r) = (hexval h1 * 16 + hexval h2) :: urldecode r) /\
+  (forall h1 h2 r, xdigit h1 && xdigit h2 = false -> urldecode (37 :: h1 :: h2 :: r) = urldecode (h1 :: h2 :: r)) /\
+  (forall h, urldecode [37; h] = urldecode [h]) /\
+  urldecode [37] = [] /\
+  (forall c r, c <> 43 -> c <> 37 -> urldecode (c :: r) = c :: urldecode r).
+Proof. exact urldecode_exact. Qed.
+Print Assumptions urldecode_exact_behaviour.
+Theorem urldecode_output_is_bytes : forall s, bytes_ok s -> bytes_ok (urldecode s).
+Proof. exact urldecode_bytes_ok. Qed.
+Theorem urldecode_reencode_is_stable : forall s, bytes_ok s -> urldecode (urlencode (urldecode s)) = urldecode s.
+Proof. exact urldecode_reencode_stable. Qed.
+Theorem urlencode_image_is_fixed_points : forall x, bytes_ok x ->
+  (urlencode (urldecode x) = x <-> exists s, bytes_ok s /\ x = urlencode s).
+Proof. exact urlencode_image_iff. Qed.
+Theorem urlencode_never_emits_plus : forall s, bytes_ok s -> ~ In 43 (urlencode s).
+Proof. exact urlencode_no_plus. Qed.
+Print Assumptions urlencode_never_emits_plus.
+Example urldecode_lenient_nonvacuous :
+  urldecode [43] = [32] /\ urlencode [32] = [37; 50; 48] /\ urldecode [37; 50; 48] = [32] /\
+  urldecode [37] = [] /\ urldecode [37; 65] = [65] /\ urldecode [37; 65; 71] = [65; 71] /\
+  urldecode [37; 37; 52; 49] = [65] /\
+  urldecode [37; 52; 97] = [74] /\ urldecode [37; 52; 65] = [74] /\ urlencode [74] = [74].
+Proof. exact urldecode_lenient_examples. Qed.
+
+(* 8. base64url canonical form: the decoder accepts more than the encoder produces; exactly the canonical strings
+      (alphabet only, length mod 4 <> 1, unused low bits of the last symbol zero) are encodings *)
+Theorem b64_encode_yields_canonical : forall s, bytes_ok s -> b64_canonical (b64encode s) = true.
+Proof. exact b64_encode_canonical. Qed.
+Theorem b64_canonical_reencodes : forall s, b64_canonical s = true -> b64encode (b64decode s) = s.
+Proof. exact b64_canonical_roundtrip. Qed.
+Theorem b64_decode_injective_on_canonical_strings : forall s1 s2,
+  b64_canonical s1 = true -> b64_canonical s2 = true -> b64decode s1 = b64decode s2 -> s1 = s2.
+Proof. exact b64_decode_injective_on_canonical. Qed.
+Theorem b64_accepted_is_encoding_iff_canonical : forall s b,
+  decode_str s = Some b -> (b64encode b = s <-> b64_canonical s = true).
+Proof. exact decode_str_canonical. Qed.
+Print Assumptions b64_accepted_is_encoding_iff_canonical.
+Theorem b64_decode_output_is_bytes : forall s, bytes_ok (b64decode s).
+Proof. exact b64decode_bytes_ok. Qed.
+(* full-strength statement "decode s = Some b -> encode b = s" is REFUTED by the faithful model (and replayed on the
+   implementation: corpus/C15/regress.case): stray bits in the last symbol and bytes outside the alphabet are accepted *)
+Theorem b64_decode_injective_refuted : exists s1 s2 b,
+  s1 <> s2 /\ forallb b64_alphabet_ok s1 = true /\ forallb b64_alphabet_ok s2 = true /\
+  decode_str s1 = Some b /\ decode_str s2 = Some b.
+Proof. exact b64_decode_not_injective. Qed.
+Theorem b64_decode_accepts_noncanonical :
+  (decode_str [81;82] = Some [65] /\ decode_str [81;81] = Some [65] /\ b64encode [65] = [81;81]) /\
+  (decode_str [81;61;43;47] = decode_str [81;65;65;65] /\ b64_alphabet_ok 61 = false).
+Proof. split; [exact b64_decode_accepts_stray_bits|exact b64_decode_accepts_non_alphabet]. Qed.
+Print Assumptions b64_decode_accepts_noncanonical.
+
+(* 8b. how many bytes the pointer variant of decode writes, for every input length: decoded_size for the valid lengths,
+       and n/4*3 + 3 for the length decoded_size reports as invalid (the one-symbol tail writes three bytes: a caller must
+       not call the pointer variant when decoded_size is negative; the std::string variant does not) *)
+Theorem b64_pointer_decode_write_count : forall s,
+  N.of_nat (length (b64decode s)) = decode_write_count (N.of_nat (length s)).
+Proof. exact b64decode_length. Qed.
+Theorem b64_write_count_is_decoded_size : forall n d, decoded_size n = Some d -> decode_write_count n = d.
+Proof. exact decode_write_count_valid. Qed.
+Theorem b64_string_decode_rejects_exactly : forall s, decode_str s = None <-> N.of_nat (length s) mod 4 = 1.
+Proof. exact decode_str_rejects_exactly. Qed.
+Print Assumptions b64_string_decode_rejects_exactly.
+
+(* 9. a rendered value can never terminate the context it is rendered in (double-quoted attribute / element text) *)
+Theorem escaped_value_has_no_terminator : forall d s, (d = 34 \/ d = 39 \/ d = 60 \/ d = 62) -> ~ In d (escape s).
+Proof. exact escape_no_byte. Qed.
+Theorem widget_slot_confined : forall k v tail,
+  take_until (slot_end k) (escape v ++ slot_close k ++ tail) = (escape v, slot_close k ++ tail).
+Proof. exact slot_confined. Qed.
+Theorem widget_slot_value_recovered : forall k v tail,
+  unescape (fst (take_until (slot_end k) (escape v ++ slot_close k ++ tail))) = v.
+Proof. exact slot_value_recovered. Qed.
+Print Assumptions widget_slot_value_recovered.
+Theorem single_quoted_attribute_confined : forall v tail, take_until 39 (escape v ++ 39 :: tail) = (escape v, 39 :: tail).
+Proof. exact squote_attr_confined. Qed.
+(* limit of the escape function: in an UNQUOTED attribute a value with a space is not confined (the widgets never
+   render a value unquoted: widget_ctx, tied by the context bytes the harness reports) *)
+Theorem unquoted_attribute_not_confined : escape [97; 32; 111; 110; 120; 61; 49] = [97; 32; 111; 110; 120; 61; 49].
+Proof. exact escape_unquoted_attr_not_confined. Qed.
+Example slot_nonvacuous :
+  take_until 34 (tl (tl (render_slot AttrDq [34; 32; 111; 110; 120; 61; 34])) ++ [32; 47; 62])
+  = (escape [34; 32; 111; 110; 120; 61; 34], [34; 32; 47; 62]) /\ escape [34] <> [34].
+Proof. split; [vm_compute; reflexivity|vm_compute; discriminate]. Qed.
+
+(* 10. failing / short-writing sinks: a sink that accepts `room` bytes receives exactly the first `room` bytes of the
+       whole result, and success is reported exactly when everything fitted - for util::escape(begin,end,streambuf&)
+       and for the template filters with a value streamed in any pieces *)
+Theorem escape_failing_sink_exact : forall room s,
+  escape_stream room s = (firstn room (escape s), Nat.leb (length (escape s)) room).
+Proof. exact escape_stream_exact. Qed.
+Theorem filterbuf_failing_sink_exact : forall (F : list N -> list N) (room : nat),
+  (forall a b, F (a ++ b) = F a ++ F b) -> forall pieces,
+  fbs_run F room pieces = (firstn room (F (concat pieces)), Nat.leb (length (F (concat pieces))) room).
+Proof. exact fbs_run_additive. Qed.
+Print Assumptions filterbuf_failing_sink_exact.
+Theorem filter_escape_failing_sink : forall room pieces,
+  filter_escape_sink room pieces = (firstn room (escape (concat pieces)), Nat.leb (length (escape (concat pieces))) room).
+Proof. exact filter_escape_sink_exact. Qed.
+(* urlencode: the sink gets exactly the first bytes, but the code never reports the failure (finding C15/2) *)
+Theorem filter_urlencode_failing_sink : forall room pieces,
+  filter_urlencode_sink room pieces = (firstn room (urlencode (concat pieces)), true).
+Proof. exact filter_urlencode_sink_exact. Qed.
+(* full-strength statements, REFUTED by the faithful model and replayed on the implementation (docs/C15.md, findings 1 and 2):
+     "urlencode(b,e,streambuf&) reports failure when the sink is too small"
+     "after a filter the stream is in failed state when the sink failed / when it had failed before" *)
+Theorem urlencode_streambuf_failure_report_refuted : exists room s,
+  (room < length (urlencode s))%nat /\ snd (urlencode_stream room s) = true.
+Proof. exists 0%nat, [97]. split; [cbn; lia|reflexivity]. Qed.
+Theorem filter_stream_error_state_refuted : exists room pieces,
+  snd (filter_escape_sink room pieces) = false /\ filter_escape_stream_ok room pieces = true.
+Proof. exists 0%nat, [[60]]. split; vm_compute; reflexivity. Qed.
+Theorem filter_revives_failed_stream_refuted : forall (F : list N -> list N) v, snd (filter_on_failed_stream F v) = true.
+Proof. intros; reflexivity. Qed.
+Print Assumptions filter_stream_error_state_refuted.
+Theorem filter_escape_failing_sink_prefix : forall room pieces, exists rest,
+  escape (concat pieces) = fst (filter_escape_sink room pieces) ++ rest /\
+  (snd (filter_escape_sink room pieces) = true -> rest = []).
+Proof. exact filter_sink_prefix. Qed.
+Print Assumptions filter_escape_failing_sink_prefix.
+Example failing_sink_nonvacuous :
+  filter_escape_sink 5 [[60]; [97; 62]] = ([38; 108; 116; 59; 97], false) /\ filter_escape_sink 9 [[60]; [97; 62]] = (escape [60; 97; 62], true).
+Proof. split; vm_compute; reflexivity. Qed.
+
+(* 11. the rendering skeleton of all 19 value slots of src/form.cpp as the harness sets the widgets up (text: value, input
+       part alone, message without and with a label, help, error message; textarea; hidden; checkbox; submit; select / select_multiple / radio: id,
+       text, translated text), both doctypes, as_p and as_table: the HTML is  pre ++ escape v ++ post  with pre/post
+       independent of the value; the slot is in the context widget_ctx says (inside a tag right after the equals sign and the
+       opening double quote and followed by the closing one, or outside any tag); in an attribute a tokenizer at the slot reads exactly escape v up to
+       the closing quote; in element text no tag can begin or end inside the value; un-escaping gives v; and the
+       number of markup delimiters in the whole rendering does not depend on the value *)
+Theorem widget_rendering_confines_value : forall kind mode v h, render_full kind mode v = Some h ->
+  exists pre post, h = pre ++ escape v ++ post /\
+    (forall v', render_full kind mode v' = Some (pre ++ escape v' ++ post)) /\
+    slot_context_ok (widget_ctx kind) pre post = true /\
+    match widget_ctx kind with
+    | AttrDq => take_until 34 (escape v ++ post) = (escape v, post) /\
+                unescape (fst (take_until 34 (escape v ++ post))) = v
+    | ElemText => ~ In 60 (escape v) /\ ~ In 62 (escape v) /\ unescape (escape v) = v
+    end.
+Proof. exact render_full_confined. Qed.
+Print Assumptions widget_rendering_confines_value.
+Theorem widget_rendering_defined_for_all_slots : forall kind mode v, kind < 19 -> render_full kind mode v <> None.
+Proof.
+  intros kind mode v H. unfold render_full.
+  rewrite (render_b_split kind _ _ _ (proj2 (N.ltb_lt kind 19) H)). discriminate.
+Qed.
+Theorem widget_markup_independent_of_value : forall kind mode v v' h h' d, (d = 34 \/ d = 39 \/ d = 60 \/ d = 62) ->
+  render_full kind mode v = Some h -> render_full kind mode v' = Some h' ->
+  count_occ N.eq_dec h d = count_occ N.eq_dec h' d.
+Proof. exact render_full_markup_count. Qed.
+Print Assumptions widget_markup_independent_of_value.
+Example widget_rendering_nonvacuous :
+  render_full 0 1 [34; 62] <> None /\ render_full 16 2 [60] <> render_full 16 2 [] /\ render_supported 17 = true.
+Proof. split; [vm_compute; discriminate|split; [vm_compute; discriminate|reflexivity]]. Qed.
